@@ -749,25 +749,141 @@ func (c *Ctx) recordedSizeDecidesOpen(q *ssa.Function, loadReaching map[ssa.Inst
 		return out
 	}
 	tainted = taintIn(q, 0)
+	// counts: Length() of the BlockSizes list
+	counts := map[ssa.Value]bool{}
+	for _, b := range q.Blocks {
+		for _, ins := range b.Instrs {
+			if call, ok := ins.(*ssa.Call); ok {
+				if name, recv := methodCall(call); name == "Length" && recv != nil && derivesFromBlockSizes(recv, 0) {
+					counts[call] = true
+				}
+			}
+		}
+	}
+	reachesLoad := func(from *ssa.BasicBlock) ssa.Instruction {
+		seen := map[*ssa.BasicBlock]bool{}
+		stack := []*ssa.BasicBlock{from}
+		for len(stack) > 0 {
+			x := stack[len(stack)-1]
+			stack = stack[:len(stack)-1]
+			if seen[x] {
+				continue
+			}
+			seen[x] = true
+			for _, ins := range x.Instrs {
+				if loadReaching[ins] {
+					return ins
+				}
+			}
+			stack = append(stack, x.Succs...)
+		}
+		return nil
+	}
+	returnsWithoutLoad := func(from *ssa.BasicBlock) bool {
+		seen := map[*ssa.BasicBlock]bool{}
+		stack := []*ssa.BasicBlock{from}
+		for len(stack) > 0 {
+			x := stack[len(stack)-1]
+			stack = stack[:len(stack)-1]
+			if seen[x] {
+				continue
+			}
+			seen[x] = true
+			loads := false
+			for _, ins := range x.Instrs {
+				if loadReaching[ins] {
+					loads = true
+				}
+			}
+			if loads {
+				continue
+			}
+			if len(x.Succs) == 0 && len(x.Instrs) > 0 {
+				if _, isRet := x.Instrs[len(x.Instrs)-1].(*ssa.Return); isRet {
+					return true
+				}
+			}
+			stack = append(stack, x.Succs...)
+		}
+		return false
+	}
+	linear := func(v ssa.Value) (ssa.Value, int64) {
+		k := int64(0)
+		for i := 0; i < 6; i++ {
+			v = core.Unconv(v)
+			bo, ok := v.(*ssa.BinOp)
+			if !ok || (bo.Op != token.ADD && bo.Op != token.SUB) {
+				return v, k
+			}
+			if cst, isC := core.ConstInt(bo.Y); isC {
+				if bo.Op == token.ADD {
+					k += cst
+				} else {
+					k -= cst
+				}
+				v = bo.X
+				continue
+			}
+			if cst, isC := core.ConstInt(bo.X); isC && bo.Op == token.ADD {
+				k += cst
+				v = bo.Y
+				continue
+			}
+			return v, k
+		}
+		return v, k
+	}
 	for _, b := range q.Blocks {
 		iff := core.BlockIf(b)
 		if iff == nil {
 			continue
 		}
 		bo, ok := iff.Cond.(*ssa.BinOp)
-		if !ok || !(tainted[bo.X] || tainted[bo.Y]) {
+		if !ok {
 			continue
 		}
-		for _, succ := range b.Succs {
-			for _, ob := range q.Blocks {
-				if !(succ == ob || succ.Dominates(ob)) || len(succ.Preds) != 1 {
-					continue
+		lb, lk := linear(bo.X)
+		rb, rk := linear(bo.Y)
+		if counts[lb] || counts[rb] {
+			// a bounds test of the link position against the number of recorded sizes must be exactly position < count
+			op := bo.Op
+			pb, pk, ck := lb, lk, rk
+			if counts[lb] {
+				// count OP position  ==>  position OP' count
+				pb, pk, ck = rb, rk, lk
+				switch op {
+				case token.LSS:
+					op = token.GTR
+				case token.GTR:
+					op = token.LSS
+				case token.LEQ:
+					op = token.GEQ
+				case token.GEQ:
+					op = token.LEQ
 				}
-				for _, ins := range ob.Instrs {
-					if loadReaching[ins] {
-						return fmt.Sprintf("the comparison at %s on the value of the recorded block size decides whether the child is opened at %s (a recorded size — zero included — must answer the query without loading)", c.P.Pos(iff.Pos()), c.P.Pos(ins.Pos()))
-					}
+			}
+			_, isParam := pb.(*ssa.Parameter)
+			exact := false
+			switch op {
+			case token.LSS, token.GEQ:
+				exact = ck-pk == 0
+			case token.LEQ, token.GTR:
+				exact = ck-pk == -1
+			}
+			if !isParam || !exact {
+				if reachesLoad(b.Succs[0]) != nil || reachesLoad(b.Succs[1]) != nil {
+					return fmt.Sprintf("the bounds test at %s of the link position against the number of recorded block sizes is not equivalent to position < count: a recorded size at the boundary is ignored and the child opened instead", c.P.Pos(bo.Pos()))
 				}
+			}
+			continue
+		}
+		if !(tainted[bo.X] || tainted[bo.Y]) {
+			continue
+		}
+		for i, succ := range b.Succs {
+			other := b.Succs[1-i]
+			if li := reachesLoad(succ); li != nil && returnsWithoutLoad(other) {
+				return fmt.Sprintf("the comparison at %s on the value of the recorded block size decides whether the child is opened at %s (a recorded size — zero included — must answer the query without loading)", c.P.Pos(bo.Pos()), c.P.Pos(li.Pos()))
 			}
 		}
 	}
